@@ -425,7 +425,7 @@ theorem interp_serE (ext : Ext) (o : TraceOpts) : ∀ (t : Ty) (v : Val) (nb : B
       simp [ser, lv, interpDT, interpNull, isUnknownVariant, strategyOf_nil]
     | unitStruct n =>
       simp only [mappingDT, Prod.mk.injEq] at hm; obtain ⟨rfl, rfl, rfl⟩ := hm
-      simp [ser, lv, interpDT, interpScalar, isUnknownVariant, strategyOf_nil]
+      simp [ser, lv, interpDT, interpNull, isUnknownVariant, strategyOf_nil]
     | _ => simp [wt] at hw
   | t, .none, nb, dt, nb0, md, hf, hw, hs, hm, hnb => by
     cases t with
